@@ -2,7 +2,8 @@
     [Good g]: removal-enabled, canonical timelines, well-formed adjacency -- true of every reachable graph
     ([C06_good_reachable]) and of every slice ([C06_slice_good]), so the theorems apply to slices of slices. *)
 From DynVerif Require Import Base Graph Derived Spec.
-From DynVerif.proofs Require Import CoreInv C01Facts C03Facts QueryFacts SliceFacts DerivedFacts.
+From DynVerif Require Import Api.
+From DynVerif.proofs Require Import CoreInv C01Facts C03Facts QueryFacts SliceFacts DerivedFacts ApiFacts.
 
 Theorem C06_good_reachable : forall dir cs, Good (run_calls (G0 dir) cs).
 Proof. exact Good_reach. Qed.
@@ -35,6 +36,12 @@ Print Assumptions C06_nodes.
 Theorem C06_slice_good : forall g a b H, Good g -> a <= b -> time_slice g a (Some b) = (Some H, Done) -> Good H /\ WF H.
 Proof. intros. split; [eapply slice_good; eauto|eapply WF_time_slice; eauto]. Qed.
 Print Assumptions C06_slice_good.
+
+(** ... and every invariant behind C02-C05 holds on it ([WFG]: adjacency well formed, stream and snapshot counters in
+    step with presence), whatever the source graph *)
+Theorem C06_slice_wellformed : forall g a b H o, time_slice g a b = (Some H, o) -> WFG H.
+Proof. exact WFG_time_slice. Qed.
+Print Assumptions C06_slice_wellformed.
 
 (** slicing a slice equals slicing by the intersection of the windows (at the level of presence) *)
 Theorem C06_compose : forall g a b c d H1 H2 H3 u v tau, Good g -> a <= b -> c <= d -> Z.max a c <= Z.min b d ->
